@@ -43,7 +43,15 @@ def simulate(ctx, name, c, num, depth, seed, next_='Next'):
 def replay_all(ctx, files, kind, c, opts=None, tag=''):
     jobs = []
     for i, f in enumerate(files):
-        jobs.append((f, kind, c, os.path.join(ctx.scratch, 'rp-%s-%s-%d' % (kind, tag, i)), opts or {}))
+        o = dict(opts or {})
+        # concretisation parameter outside the model: payload padding, so that records spread over more
+        # than one read buffer (8 KiB) in two thirds of the replays
+        o.setdefault('pad', (0, 3000, 9000)[(i + ctx.seed) % 3])
+        # a quarter of the replays observe sparsely: one pooled read per step and the full table only after
+        # a commit (newly written objects first) - reads then meet "cold" read buffers at varying moments
+        o.setdefault('sparse', (i + ctx.seed) % 4 == 1)
+        o['rng_seed'] = ctx.seed * 100003 + i
+        jobs.append((f, kind, c, os.path.join(ctx.scratch, 'rp-%s-%s-%d' % (kind, tag, i)), o))
     return par.pmap(sd.replay_behaviour, jobs, chunksize=4)
 
 
